@@ -3,8 +3,8 @@
 # /verif and a private clone of /repo (so several can run in parallel and /repo itself is never touched); prints one line.
 d=$1; T=${2:-quick}
 SRC=$(cd "$(dirname "$0")/.." && pwd)
-P=$(echo $d | cut -c1-3)
-W=/tmp/mx/$d
+P=${CHECKPROP:-$(echo $d | cut -c1-3)}
+W=/tmp/mx/$d-$P
 rm -rf $W; mkdir -p $W
 git clone -q ${VERIF_REPO:-/repo} $W/repo
 cp -r $SRC $W/verif
